@@ -11,6 +11,7 @@ import Wz.Model.Marshal
 import Wz.Model.Abi
 import Wz.Gen.AbiRegs
 import Wz.Proofs.C08_Abi
+import Wz.Proofs.ExitCodeIndex
 
 namespace Wz.C08
 open Wz.Model.Marshal Wz.Gen.ApiCodec
@@ -499,5 +500,17 @@ the results fit, and nothing more is required. -/
 theorem slice_fits (p r : Nat) : p ≤ sliceSize p r ∧ r ≤ sliceSize p r ∧ (sliceSize p r = p ∨ sliceSize p r = r) := by
   unfold sliceSize
   split <;> omega
+
+/-- The compiler reaches a host function by packing its index into the exit code of the trampoline
+(`ExitCodeCallGo[Module]FunctionWithIndex`) and unpacking it in the Go dispatcher (`GoFunctionIndexFromExitCode`):
+for every index below 2^24 (host modules hold at most 2^16 functions) and both listener variants the function that
+runs is the one that was called.  About the REGENERATED definitions (wazevoapi/exitcode.go). -/
+theorem host_function_index_survives_dispatch (i : BitVec 64) (l : Bool) (h : i.toNat < 2 ^ 24) :
+    Wz.Gen.CallEngine.GoFunctionIndexFromExitCode (Wz.Gen.CallEngine.ExitCodeCallGoFunctionWithIndex i l) = i ∧
+    Wz.Gen.CallEngine.GoFunctionIndexFromExitCode (Wz.Gen.CallEngine.ExitCodeCallGoModuleFunctionWithIndex i l) = i :=
+  Wz.Proofs.ExitCode.roundtrip i l h
+
+-- non-vacuity (test on a sample): function 300 of a host module, with a listener
+example : Wz.Gen.CallEngine.GoFunctionIndexFromExitCode (Wz.Gen.CallEngine.ExitCodeCallGoFunctionWithIndex 300#64 true) = 300#64 := by decide
 
 end Wz.C08
